@@ -77,12 +77,13 @@ PROPS["C02"] = {
     "outside": WINDOW_OUTSIDE,
 }
 PROPS["C06"] = {
-    "quick": [{"name": "sums", "harnesses": ["c06_year_sums_3"], "jobs": 1}],
-    "thorough": [{"name": "sums", "harnesses": ["c06_year_sums_3"], "jobs": 1}],
+    "quick": [{"name": "sums", "harnesses": ["c06_year_sums_3", "c06_round_to_cent_is_half_away_from_zero"], "jobs": 2}],
+    "thorough": [{"name": "sums", "harnesses": ["c06_year_sums_3", "c06_round_to_cent_is_half_away_from_zero"], "jobs": 2}],
     "functions": ["portfolio::cumulative_gains::calc_security_cumulative_capital_gains",
-                  "CumulativeCapitalGains::capital_gains_year_totals_keys_sorted (through the map model)"],
+                  "util::math::round_to_cent (the rounding used by dollar_precision_str / PrintHelper::curr_str)"],
     "bounds": ("3 rows with symbolic optional gains in [-50.00, 50.00] settling on Dec 30/31 2019 or Jan 1/2 2020 "
-               "(symbolic, non-decreasing), trade date = the day before settlement; unwind 5"),
+               "(symbolic, non-decreasing), trade date = the day before settlement; unwind 5; rounding: |value| = m/10^(2+k), "
+               "m 0..60000, k 1..3, either sign"),
     "outside": ("more than 3 rows / 2 years; the aggregate over securities (calc_cumulative_capital_gains: 21 GB in "
                 "CBMC, not claimed); rendering and rounding of the figures (Decimal Display, tabled: not encodable)"),
 }
@@ -139,7 +140,7 @@ PROPS["C16"] = {
 
 # ---------------------------------------------------------------------------
 # Claim texts (MANIFEST.level_claimed.text / level_note) per claimed property.
-TRUSTED = ("Trusted base: decimal model crate instead of rust_decimal (exact i64-mantissa arithmetic, 6-digit truncated "
+TRUSTED = ("Trusted base: decimal model crate instead of rust_decimal (exact i64-mantissa arithmetic, 6-digit half-even rounded "
            "division), 4-slot map model instead of std HashMap/HashSet, formatting and Affiliate::from_strep stubs; "
            "a counterexample is reported only after the same harness fails natively against the real crates. ")
 CLAIMS = {
@@ -147,7 +148,7 @@ CLAIMS = {
         "text": ("Bounded model checking (Kani/CBMC) of the real delta_for_tx from an arbitrary valid portfolio state: for "
                  "every Buy/Sell/RoC/SfLA/Split with symbolic amounts, rates and flags inside the stated ranges the solver "
                  "shows the reported balance, all-affiliate balance, ACB and gain equal the average-cost rule (aligned with "
-                 "the model's truncated quotient), per affiliate, registered = shares only; plus the CsvTx defaults. "
+                 "the model's rounded quotient), per affiliate, registered = shares only; plus the CsvTx defaults. "
                  "Histories of any length follow by induction over the checked state invariant (paper step); that is why "
                  "one step from any state is the right unit and a sampled history is not."),
         "note": (TRUSTED + "Superficial-loss scan stubbed to 'not superficial' in the sell step (C02 owns it). Shapes "
@@ -172,10 +173,11 @@ CLAIMS = {
     "C06": {
         "text": ("Bounded model checking of calc_security_cumulative_capital_gains on 3 hand-built rows with symbolic "
                  "optional gains settling around a year boundary (trade date in the previous year): yearly figures keyed "
-                 "by settlement year, total = sum of rows = sum of years, no entry for a year without gains."),
+                 "by settlement year, total = sum of rows = sum of years, no entry for a year without gains; and of the "
+                 "cent rounding applied to displayed figures (half away from zero, by value: it cannot feed back)."),
         "note": (TRUSTED + "Only the per-security sums are claimed. The aggregate over securities did not fit (21 GB) and "
-                 "the display-rounding clause needs Decimal's Display/format machinery, which is stubbed: both are "
-                 "outside this check."),
+                 "the text produced by dollar_precision_str (format!(\"{:.2}\") over Display) ran out of memory with the real "
+                 "formatting machinery: both are outside this check."),
         "design_ref": "DESIGN.md 0, 5 C06",
     },
     "C07": {
@@ -329,11 +331,11 @@ NOT_APPLICABLE.pop("C18", None)
 PROPS["C04"] = {
     "quick": [{"name": "lookahead", "harnesses": ["c04_lookahead_split_sell_exact_ratio"],
                "jobs": 1, "cbmc_args": SMALL, "mem_gb": 28, "harness_timeout_s": 2400},
-              {"name": "lookahead-known", "harnesses": ["c04_lookahead_split_sell_any_ratio"],
+              {"name": "lookahead-known", "harnesses": ["c04_lookahead_split_sell_one_for_three"],
                "jobs": 1, "cbmc_args": SMALL, "mem_gb": 28, "harness_timeout_s": 2400},
               {"name": "steps", "harnesses": ["c01_sell_a0_m1", "c01_roc_a2_m7", "c01_split_a0_m7", "c01_sfla_a2_m7"],
                "jobs": 4}],
-    "thorough": [{"name": "lookahead", "harnesses": ["c04_lookahead_split_sell_exact_ratio", "c04_lookahead_split_sell_any_ratio",
+    "thorough": [{"name": "lookahead", "harnesses": ["c04_lookahead_split_sell_exact_ratio", "c04_lookahead_split_sell_one_for_three",
                                                     "c02_w_otherbuy_sale_sell"],
                   "jobs": 3, "cbmc_args": SMALL, "mem_gb": 28, "timeout_s": 20000, "harness_timeout_s": 6000},
                  {"name": "steps", "harnesses": C01_SELL + C01_ROC + C01_SFLA + C01_SPLIT, "jobs": 8, "timeout_s": 14000,
@@ -438,3 +440,27 @@ CLAIMS["C03"] = {
     "design_ref": "DESIGN.md 0, 0.6, 5 C03",
 }
 NOT_APPLICABLE.pop("C03", None)
+
+NOT_APPLICABLE.update({
+    "C09": ("the two encodable sites where hash iteration reaches output were put before the solver and gave no verdict: "
+            "replace_global_security_splits run twice on a 3-row history (Vec<Tx> remove/insert of ~260-byte rows: 30 min "
+            "time-out in both field-sensitivity settings) and calc_yearly_max_cost_day run twice (out of memory at 24 GB); "
+            "the third site (approot's cross-security delta order) sits behind async CSV readers; see DESIGN.md 0.6. The "
+            "defects are visible by reading (unsorted HashSet in splits.rs:91, strict '<' tie in costs.rs) but are not "
+            "reported as findings because no check decides them."),
+    "C12": ("RateLoader::get_effective_usd_cad_rate with a harness-defined remote loader on a 4-day calendar: builds under "
+            "Kani only after stubbing today_local (chrono's clock trips a kani-compiler ICE), then no verdict within 25 min "
+            "(async state machines through Box<dyn Future>/Box<dyn RatesCache>, Julian-day arithmetic of the 7-day look-back); "
+            "parse_rates_json (json crate) and the row-level currency rules sit behind it; DESIGN.md 0.6"),
+    "C13": ("same code path as C12 with two loaders over one cache: the single-loader harness already gives no verdict in "
+            "25 min (DESIGN.md 0.6); the CSV-file cache is file I/O"),
+    "C19": ("find_sell_to_cover_trade_set / amend_benefit_sales build nested Vec<Vec<&BrokerTx>> through itertools "
+            "combinations under symbolic conditions; the much simpler FxTracker::add_implicit_fxt on two ~350-byte BrokerTx "
+            "rows already exhausts 24 GB in CBMC, and the text layer is regex (etrade.rs); not attempted further"),
+    "C20": ("safe_page_chunks_with_remainder_pn on <=4 pages and 2x2 symbolic hints runs out of memory at 20 and 28 GB "
+            "(nested Vec<Vec<u32>> with symbolic lengths); the allocation-table parser is a regex-driven state machine over "
+            "extracted PDF text and OptimizedPageIter needs a lopdf::Document: nothing of C20 is decided, so it is not claimed"),
+})
+for _p in ("C20",):
+    PROPS.pop(_p, None)
+    CLAIMS.pop(_p, None)
